@@ -290,7 +290,7 @@ inductive PodDeleteWhy (s : Sys) (jo : JobObj) (c : Call) (t : Task) : Prop
   | pendingTimeout (T : Int) (t' : Task) (p' : PodObj) : c.force = false → isStarted jo.job = true →
       jo.job.deletionTimestamp = none → getPendingTimeout jo.job s.cfg = some T → 0 < T →
       t.deletionTimestamp = none →
-      t'.name = c.name → podTask p' = some t' → p'.ownerUid = some jo.uid →
+      t'.name = c.name → podTask s.clock p' = some t' → p'.ownerUid = some jo.uid →
       t'.ref.runningTimestamp = none → t'.ref.finishTimestamp = none →
       (t'.ref.creationTimestamp.getD zeroTime : Int) + T ≤ s.clock →
       (∀ e, lookupRef jo.job.status.tasks c.name = some e → e.runningTimestamp = none ∧ e.finishTimestamp = none) →
@@ -317,7 +317,7 @@ inductive PodDeleteWhy (s : Sys) (jo : JobObj) (c : Call) (t : Task) : Prop
 one of the five reasons of `PodDeleteWhy`, evaluated against the state the step starts in -/
 theorem pod_delete_why (s : Sys) (c : Call) (hc : c ∈ (step s .work).calls) (hv : c.verb = "delete")
     (hres : c.res = "pods") :
-    ∃ jo t p, s.jobCache = some jo ∧ t.name = c.name ∧ podTask p = some t ∧ p.ownerUid = some jo.uid ∧
+    ∃ jo t p, s.jobCache = some jo ∧ t.name = c.name ∧ podTask s.clock p = some t ∧ p.ownerUid = some jo.uid ∧
       PodDeleteWhy s jo c t := by
   obtain ⟨sp, jo, hview, hjo, ho⟩ := step_call_origin s c hc
   refine ⟨jo, ?_⟩
@@ -330,7 +330,7 @@ theorem pod_delete_why (s : Sys) (c : Call) (hc : c ∈ (step s .work).calls) (h
         | none => rfl
         | some x => rw [h] at hdel; cases hdel
       obtain ⟨_, s1, rj1, tasks1, hcr, hle, t, ht, hn, hreason⟩ := taskOrigin_delete sp jo jo.job c hto hv
-      have hown : ∃ p, podTask p = some t ∧ p.ownerUid = some jo.uid := by
+      have hown : ∃ p, podTask sp.clock p = some t ∧ p.ownerUid = some jo.uid := by
         rcases syncCreateTasks_members sp jo jo.job _ s1 rj1 tasks1 hcr t ht with h0 | h1
         · unfold tasks0 tasksForRefs at h0
           obtain ⟨ex, _, hg⟩ := List.mem_filterMap.mp h0
@@ -338,10 +338,11 @@ theorem pod_delete_why (s : Sys) (c : Call) (hc : c ∈ (step s .work).calls) (h
           exact ⟨p, hpt, hpo⟩
         · exact h1
       obtain ⟨p, hpt, hpo⟩ := hown
+      rw [hview.clock] at hpt
       refine ⟨t, p, hjo, hn, hpt, hpo, ?_⟩
       cases hreason with
       | pendingTimeout T rj2 hf hT hpos hts hp hd hdt =>
-        have hown1 : ∀ x ∈ tasks1, ∃ p, podTask p = some x ∧ p.ownerUid = some jo.uid := by
+        have hown1 : ∀ x ∈ tasks1, ∃ p, podTask sp.clock p = some x ∧ p.ownerUid = some jo.uid := by
           intro x hx
           rcases syncCreateTasks_members sp jo jo.job _ s1 rj1 tasks1 hcr x hx with h0 | h1
           · unfold tasks0 tasksForRefs at h0
@@ -355,6 +356,7 @@ theorem pod_delete_why (s : Sys) (c : Call) (hc : c ∈ (step s .work).calls) (h
           exact (podTask_ok hpt).1
         obtain ⟨t', ht', hn', hr', hf', hc', hrec⟩ := pending_judged sp.clock rj1.status.tasks tasks1 rj2 t hok1 hts ht hp
         obtain ⟨p', hpt', hpo'⟩ := hown1 t' ht'
+        rw [hview.clock] at hpt'
         unfold pendDeadline at hd
         rw [hc'] at hd
         refine .pendingTimeout T t' p' hf hst hnd (by rw [← hview.cfg]; exact hT) hpos hdt (hn'.trans hn) hpt' hpo' hr' hf'
@@ -441,7 +443,7 @@ theorem pod_delete_why (s : Sys) (c : Call) (hc : c ∈ (step s .work).calls) (h
       obtain ⟨l', e', hall, _⟩ := handleFinalizer_ext s' jo rj' jo.finalizer
       rw [e'.newCalls] at h
       obtain ⟨_, _, hf, hdts, hfz, t, ht, hn, _⟩ := hall c h
-      have hown : ∃ p, podTask p = some t ∧ p.ownerUid = some jo.uid := by
+      have hown : ∃ p, podTask s'.clock p = some t ∧ p.ownerUid = some jo.uid := by
         rcases (mem_finalizerTasks s' jo rj' t).mp ht with h0 | ⟨p, _, hpt, _, hpo, _⟩
         · unfold tasksForRefsConfirmed at h0
           obtain ⟨ex, _, hg⟩ := List.mem_filterMap.mp h0
@@ -449,6 +451,7 @@ theorem pod_delete_why (s : Sys) (c : Call) (hc : c ∈ (step s .work).calls) (h
           exact ⟨p, hpt, hpo⟩
         · exact ⟨p, hpt, hpo⟩
       obtain ⟨p, hpt, hpo⟩ := hown
+      rw [e.clock, hview.clock] at hpt
       exact ⟨t, p, hjo, hn, hpt, hpo, .finalizer hf (by rw [← hle.deletionTimestamp]; exact hdts) hfz⟩
   · rw [hu] at hv; simp at hv
 
